@@ -433,6 +433,33 @@ def run(tier, seed, replay):
                     viol("failure_exit_status", rp, "--config-path run, fault %s: exit status %d, expected 1" % (cname, pr.returncode))
                 if not pr.stderr.strip():
                     viol("no_diagnostic", rp, "--config-path run, fault %s: nothing on stderr" % cname)
+    # ---- a path that does not exist, named BEFORE a healthy root: whatever is wrong around it (its directory missing too, a
+    # malformed rustfmt.toml where it would have been) the healthy root is still formatted and the exit status is 1
+    pd = os.path.join(base, "missing_first")
+    for mname in ("plain", "missing_parent_dir", "bad_toml_in_its_dir"):
+        for mode in MODES:
+            shutil.rmtree(pd, ignore_errors=True)
+            os.makedirs(os.path.join(pd, "k"))
+            if mname == "bad_toml_in_its_dir":
+                os.makedirs(os.path.join(pd, "k", "sub"))
+                open(os.path.join(pd, "k", "sub", "rustfmt.toml"), "w").write("max_width = \"x\"\n")
+            missing = {"plain": "k/nothere.rs", "missing_parent_dir": "k/nodir/nothere.rs", "bad_toml_in_its_dir": "k/sub/nothere.rs"}[mname]
+            okf = build_ok(os.path.join(pd, "ok"))
+            pr = subprocess.run([exe] + MODES[mode] + [os.path.join(pd, missing), os.path.join(pd, "ok", "main.rs")], cwd=pd, env=env, stdout=subprocess.PIPE, stderr=subprocess.PIPE, timeout=60)
+            okc = {rel: open(os.path.join(pd, "ok", rel)).read() for rel in okf}
+            out_ = pr.stdout.decode("utf-8", "replace")
+            if mode == "files":
+                done = all(okc[rel] == ok_fmt[rel] for rel in okf)
+            elif mode == "check":
+                done = all(("Diff in %s" % os.path.join(pd, "ok", rel)) in out_ for rel in okf)
+            else:
+                done = all(ok_fmt[rel] in out_ for rel in okf)
+            rp = {"case": {"kind": "missing_path_first:" + mname, "mode": mode}, "rc": pr.returncode, "stderr": pr.stderr.decode("utf-8", "replace")[-400:]}
+            nontrivial.add("missing_first_%s_%s" % (mname, mode))
+            if not done:
+                viol("healthy_root_not_formatted", rp, "a path that does not exist (%s) named before a healthy root: the healthy root was not formatted" % mname)
+            if pr.returncode != 1:
+                viol("failure_exit_status", rp, "a path that does not exist (%s): exit status %d, expected 1" % (mname, pr.returncode))
     # ---- required_version in every spelling: a requirement the running version does not meet aborts the run before anything
     # is parsed or written; one it meets changes nothing
     vout = subprocess.run([exe, "--version"], env=env, stdout=subprocess.PIPE, stderr=subprocess.PIPE, timeout=60).stdout.decode()
